@@ -19,6 +19,7 @@ import ast
 import os
 import sys
 
+import pynorm
 from py2coq_arith import Unsupported
 
 ZREAD = {"volume": "volume", "self.market_id": "(m_id m)", "self.time": "(m_time m)"}
@@ -108,7 +109,7 @@ def translate(repo):
     a = fs[0].args
     if [x.arg for x in a.args] != ["self", "price", "volume", "buy_order", "sell_order"] or a.vararg or a.kwarg or a.kwonlyargs or a.defaults:
         raise Unsupported("signature of _execute_orders")
-    body = [s for s in fs[0].body if not (isinstance(s, ast.Expr) and isinstance(s.value, ast.Constant) and isinstance(s.value.value, str))]
+    body = pynorm.normalise(fs[0], cs[0], returns_none=False)
     lines, logvar, reported, returned = [], None, 0, False
     for k, s in enumerate(body):
         if returned:
